@@ -11,6 +11,8 @@ import (
 	"strings"
 	"text/template"
 	"time"
+
+	"gosmt/sym"
 )
 
 // nativeCase is one concrete execution of a harness entry against the real build.
@@ -109,13 +111,23 @@ func runNative(repo, pkgPath string, harness []string, entries []string, cases [
 		return nil, err
 	}
 	replace := map[string]string{}
+	var habs []string
 	for _, h := range harness {
 		abs, _ := filepath.Abs(h)
-		replace[filepath.Join(pkgDir, "zz_verif_"+filepath.Base(h))] = abs
+		habs = append(habs, abs)
 	}
-	zz, _ := filepath.Glob("/verif/zzvrf/*.go")
-	for _, f := range zz {
-		replace[filepath.Join(repo, "pkg", "zzvrf", filepath.Base(f))] = f
+	ovl, err := sym.BuildOverlay(repo, pkgPath, habs, "/verif/zzvrf")
+	if err != nil {
+		return nil, err
+	}
+	n := 0
+	for target, data := range ovl {
+		n++
+		f := filepath.Join(tmp, fmt.Sprintf("ov%d_%s", n, filepath.Base(target)))
+		if err := os.WriteFile(f, data, 0o644); err != nil {
+			return nil, err
+		}
+		replace[target] = f
 	}
 	for k, v := range extraOverlay {
 		replace[k] = v
